@@ -9,7 +9,7 @@ package py
 type Bool bool
 
 var (
-	BoolType = NewType("bool", "bool(x) -> bool\n\nReturns True when the argument x is true, False otherwise.\nThe builtins True and False are the only two instances of the class bool.\nThe class bool is a subclass of the class int, and cannot be subclassed.")
+	BoolType = NewTypeX("bool", "bool(x) -> bool\n\nReturns True when the argument x is true, False otherwise.\nThe builtins True and False are the only two instances of the class bool.\nThe class bool is a subclass of the class int, and cannot be subclassed.", BoolNew, nil)
 	// Some well known bools
 	False = Bool(false)
 	True  = Bool(true)
@@ -26,6 +26,16 @@ func NewBool(t bool) Bool {
 		return True
 	}
 	return False
+}
+
+// BoolNew
+func BoolNew(metatype *Type, args Tuple, kwargs StringDict) (Object, error) {
+	var x Object = False
+	err := ParseTupleAndKeywords(args, kwargs, "|O:bool", []string{"x"}, &x)
+	if err != nil {
+		return nil, err
+	}
+	return MakeBool(x)
 }
 
 func (a Bool) M__bool__() (Object, error) {
